@@ -47,6 +47,10 @@
 (*                  replaced by a plain function (run as a mutant)         *)
 (* Mutant "none" | "inherited" | "alias" | "doublewrap" | "cm2func" |      *)
 (*        "nometa" | "wrapunann" | "nowrap" |                              *)
+(*        "ctxdropped" under a non-fatal configuration the class route     *)
+(*                  does not hand the class stack to its members: members  *)
+(*                  whose hints need it (typing.Self) fail to decorate,    *)
+(*                  the error becomes a warning, they stay unwrapped       *)
 (*        "exacttype"  members are filtered by  value.__class__ in TYPES   *)
 (*                  instead of isinstance: nested classes whose metaclass  *)
 (*                  is not plain type (ABC, Enum, Protocol, custom) and    *)
@@ -67,7 +71,9 @@ CONSTANTS Rule, SubRule, Mutant,
                           \*   Aliases    subset of {"none", "Aux", "DerivedAux", "Base", "Self"}: Derived.ref = <that class>
                           \*   DCs        subset of {"none", "B", "D"}: the class that may become a dataclass
                           \*   Orders     names of the decoration orders to script (see Scripts)
-                          \*   Confs      subset of {"D", "O0", "N"}
+                          \*   Confs      subset of {"D", "O0", "N", "W"}:  D default, O0 strategy, N custom violation
+                          \*              types, W non-fatal decoration (warning_cls_on_decorator_exception
+                          \*              set, as beartype.claw does) with its own violation types
                           \*   Free       TRUE: operations are chosen freely (up to MaxOps) instead of scripted
                           \* (a .cfg file cannot hold records: Groups <- <an operator of a model module>)
           Emit            \* TRUE: print one JSON row per quiescent state (binding B1/B2)
@@ -95,13 +101,15 @@ Variant(v) ==
     [] v = "Pau"  -> VR("property", "a", "u", "-")  [] v = "Pnn"  -> VR("property", "n", "n", "-")
     [] v = "Paaa" -> VR("property", "a", "a", "a")  [] v = "Puau" -> VR("property", "u", "a", "u")
     [] v = "Puua" -> VR("property", "u", "u", "a")
+    [] v = "Fx"   -> VR("func", "x", "-", "-")      [] v = "Cx" -> VR("classmethod", "x", "-", "-")
     [] v = "Cs"   -> VS("classmethod", "a", "-", "-") [] v = "Ss" -> VS("staticmethod", "a", "-", "-")
     [] v = "Dt"   -> VR("data", "-", "-", "-")
     [] v = "none" -> VR("none", "-", "-", "-")
 
 FuncKinds == {"func", "classmethod", "staticmethod", "property"}
 ClassKinds == {"nested", "alias"}
-Ann(p) == p \in {"a", "n"}
+Ann(p) == p \in {"a", "n", "x"}
+Ctx(p) == p = "x"       \* "x": annotated with typing.Self -- decorable only with the class stack at hand
 Ntc(p) == p \in {"n", "m"}
 
 (* ------------------------------------------------------------------------ *)
@@ -120,7 +128,8 @@ RoleVar(w, r) ==
     [] r = 7 -> (IF w.al = "Aux" THEN "Fa" ELSE "none")
     [] r = 8 -> (IF w.al = "DerivedAux" THEN "Fa" ELSE "none")
 
-Cell(ann, ntc, wraps, by, meta) == [ann |-> ann, ntc |-> ntc, wraps |-> wraps, by |-> by, meta |-> meta]
+Cell(ann, ntc, ctx, wraps, by, meta) ==
+  [ann |-> ann, ntc |-> ntc, ctx |-> ctx, wraps |-> wraps, by |-> by, meta |-> meta]
 
 Letter(w, q) == Variant(RoleVar(w, q[1])).parts[q[2]]
 UsedParts(w) == { q \in (1..NRoles) \X (1..3) : Letter(w, q) # "-" }
@@ -128,7 +137,7 @@ FuncId(w, r, p) == Cardinality({ q \in UsedParts(w) : q[1] < r \/ (q[1] = r /\ q
 InitHeap(w) ==
   [j \in 1..Cardinality(UsedParts(w)) |->
      LET q == CHOOSE q \in UsedParts(w) : FuncId(w, q[1], q[2]) = j
-     IN Cell(Ann(Letter(w, q)), Ntc(Letter(w, q)), 0, "-", j)]
+     IN Cell(Ann(Letter(w, q)), Ntc(Letter(w, q)), Ctx(Letter(w, q)), 0, "-", j)]
 
 Opt(v, s) == IF v = "none" THEN <<>> ELSE <<s>>
 MkSlot(w, name, v, r) ==
@@ -175,10 +184,10 @@ Group(name, vb, vb2, vd, vo, vi, vdeep, mb, mi, me, al, dcs, orders, confs, free
    DCs |-> dcs, Orders |-> orders, Confs |-> confs, Free |-> free, MaxOps |-> maxops]
 \* the stand-alone configuration ClassDecor.cfg (also the configuration of the spec mutants)
 DefaultGroups ==
-  { Group("default", {"Fa"}, {"none"}, {"Fa", "Ca", "Fu", "Cs", "Ss"}, {"none"}, {"none", "Sa"}, {"none"},
-          {"type"}, {"type", "abc", "enum"}, {"type"},
-          {"none", "Aux", "DerivedAux", "Self"}, {"none"}, {"single", "memberclass", "membertwice"},
-          {"D", "N"}, FALSE, 2) }
+  { Group("default", {"Fa"}, {"none"}, {"Fa", "Ca", "Fu", "Cs", "Ss", "Fx"}, {"none"}, {"none", "Sa"}, {"none"},
+          {"type"}, {"type", "enum"}, {"type"},
+          {"none", "Aux", "DerivedAux", "Self"}, {"none"}, {"single", "memberclass"},
+          {"D", "N", "W"}, FALSE, 2) }
 
 (* ------------------------------------------------------------------------ *)
 (* Operations of a scenario                                                 *)
@@ -195,7 +204,11 @@ OpDC(c) == [t |-> "DC", c |-> c, i |-> 0, k |-> "-"]
 \* about: scenarios keep O0 last
 ConfPairsOf(Confs) == { p \in Confs \X Confs : p[1] = "O0" => p[2] = "O0" }
 DcClass(w) == CASE w.dc = "B" -> 1 [] w.dc = "D" -> 2 [] OTHER -> 0
-HasFuncSlot(w, c, i) == i <= Len(Classes(w)[c].slots) /\ Classes(w)[c].slots[i].kind \in FuncKinds
+\* a slot that a scenario may decorate on its own, without its class: a member whose hints need the
+\* class (typing.Self) cannot be (beartype raises BeartypeDecorHintPep673Exception, by design)
+HasFuncSlot(w, c, i) ==
+  /\ i <= Len(Classes(w)[c].slots) /\ Classes(w)[c].slots[i].kind \in FuncKinds
+  /\ \A p \in 1..3 : LET f == Classes(w)[c].slots[i].parts[p] IN IF f = 0 THEN TRUE ELSE ~InitHeap(w)[f].ctx
 
 Scripts(g, w) ==
   LET S(name, set) == IF name \in g.Orders THEN set ELSE {}
@@ -257,19 +270,23 @@ Unbeartypeable(c) ==            \* is_func_unbeartypeable (python -O never gets 
   \/ (IsWrapper(c) /\ Mutant # "doublewrap")      \* hasattr(func, '__beartype_wrapper')
   \/ Mutant = "nowrap"
 
-DecorFunc(h, f, k) ==
+\* route "class": called by beartype_type with cls_stack; "bare": beartype(member) without a class.
+\* Hints that need the class cannot be resolved without the stack; with a non-fatal configuration the
+\* exception is turned into a warning and the callable comes back as it was.
+CtxLost(c, k, route) == c.ctx /\ (route = "bare" \/ (Mutant = "ctxdropped" /\ k = "W"))
+DecorFunc(h, f, k, route) ==
   LET h1 == IF k = "O0" THEN [h EXCEPT ![f].ntc = TRUE] ELSE h     \* no_type_check(func) marks the callable
       c == h1[f]
-  IN IF Unbeartypeable(c) THEN [fn |-> h1, out |-> f]
-     ELSE [fn |-> Append(h1, Cell(c.ann, FALSE, f, k,
+  IN IF Unbeartypeable(c) \/ CtxLost(c, k, route) THEN [fn |-> h1, out |-> f]
+     ELSE [fn |-> Append(h1, Cell(c.ann, FALSE, c.ctx, f, k,
                                   IF Mutant = "nometa" THEN 0 ELSE c.meta)),   \* update_wrapper
            out |-> Len(h1) + 1]
 
 \* the function parts of one descriptor, in the order the code decorates them
-DecorParts(h, parts, k) ==
-  LET d1 == IF parts[1] = 0 THEN [fn |-> h, out |-> 0] ELSE DecorFunc(h, parts[1], k)
-      d2 == IF parts[2] = 0 THEN [fn |-> d1.fn, out |-> 0] ELSE DecorFunc(d1.fn, parts[2], k)
-      d3 == IF parts[3] = 0 THEN [fn |-> d2.fn, out |-> 0] ELSE DecorFunc(d2.fn, parts[3], k)
+DecorParts(h, parts, k, route) ==
+  LET d1 == IF parts[1] = 0 THEN [fn |-> h, out |-> 0] ELSE DecorFunc(h, parts[1], k, route)
+      d2 == IF parts[2] = 0 THEN [fn |-> d1.fn, out |-> 0] ELSE DecorFunc(d1.fn, parts[2], k, route)
+      d3 == IF parts[3] = 0 THEN [fn |-> d2.fn, out |-> 0] ELSE DecorFunc(d2.fn, parts[3], k, route)
   IN [fn |-> d3.fn, parts |-> <<d1.out, d2.out, d3.out>>]
 
 LogOf(parts, outs, k) ==
@@ -283,8 +300,8 @@ LogOf(parts, outs, k) ==
 Uncallable(m) == SubRule = "exact" /\ m.sub /\ m.kind = "classmethod"
 Pseudofunc(m) == SubRule = "exact" /\ m.sub /\ m.kind = "staticmethod"
 \* beartype_nontype on the value of a function-like slot: the new slot and heap
-DecorSlot(h, m, k) ==
-  LET d == DecorParts(h, m.parts, k)
+DecorSlot(h, m, k, route) ==
+  LET d == DecorParts(h, m.parts, k, route)
   IN [fn |-> d.fn,
       slot |-> [m EXCEPT !.parts = d.parts,
                          !.kind = IF (Mutant = "cm2func" /\ m.kind = "classmethod") \/ Pseudofunc(m) THEN "func" ELSE m.kind,
@@ -318,7 +335,9 @@ AllOps ==
 Schedulable(op) ==
   IF grp.Free
   THEN /\ Len(hist) < grp.MaxOps /\ op \in AllOps
-       /\ (op.t = "M" => op.i <= Len(cls[op.c].slots) /\ cls[op.c].slots[op.i].kind \in FuncKinds)
+       /\ (op.t = "M" => /\ op.i <= Len(cls[op.c].slots) /\ cls[op.c].slots[op.i].kind \in FuncKinds
+                         /\ \A p \in 1..3 : LET f == cls[op.c].slots[op.i].parts[p] IN IF f = 0 THEN TRUE ELSE ~fn[f].ctx)
+                            \* (IF, not \/: inside an action TLC explores both disjuncts)
        /\ (hist # <<>> /\ hist[Len(hist)].k = "O0" => op.k = "O0")
   ELSE prog # <<>> /\ op = Head(prog)
 Advance == prog' = IF grp.Free THEN prog ELSE Tail(prog)
@@ -340,7 +359,7 @@ BeginMember(op) ==
           /\ ret' = [t |-> "slot", c |-> op.c, i |-> op.i, same |-> <<TRUE, TRUE, TRUE>>, obj |-> "same"]
      ELSE IF Uncallable(m)
      THEN /\ UNCHANGED <<cls, fn>> /\ log' = <<>> /\ ret' = Raised
-     ELSE LET d == DecorSlot(fn, m, op.k) IN
+     ELSE LET d == DecorSlot(fn, m, op.k, "bare") IN
           /\ fn' = d.fn /\ log' = d.log
           /\ cls' = [cls EXCEPT ![op.c].slots[op.i] = d.slot]
           /\ ret' = [t |-> "slot", c |-> op.c, i |-> op.i,
@@ -360,8 +379,8 @@ BeginDataclass(op) ==
                    @ \o << [name |-> "__init__", kind |-> "func", parts |-> <<n + 1, 0, 0>>, cls |-> 0, sub |-> FALSE],
                            [name |-> "__repr__", kind |-> "func", parts |-> <<n + 2, 0, 0>>, cls |-> 0, sub |-> FALSE],
                            [name |-> "__eq__",   kind |-> "func", parts |-> <<n + 3, 0, 0>>, cls |-> 0, sub |-> FALSE] >>]
-     /\ fn' = fn \o << Cell(TRUE, FALSE, 0, "-", n + 1), Cell(FALSE, FALSE, 0, "-", n + 2),
-                       Cell(FALSE, FALSE, 0, "-", n + 3) >>
+     /\ fn' = fn \o << Cell(TRUE, FALSE, FALSE, 0, "-", n + 1), Cell(FALSE, FALSE, FALSE, 0, "-", n + 2),
+                       Cell(FALSE, FALSE, FALSE, 0, "-", n + 3) >>
   /\ ret' = RetCls(op.c)
   /\ UNCHANGED <<grp, u, mark, stack>>
 
@@ -393,7 +412,7 @@ Skip == stack' = Popped \o <<[Top EXCEPT !.i = @ + 1]>>
 \* "if attr_value_beartyped is not attr_value: set_type_attr(cls, attr_name, ...)"
 WalkFuncLike(kinds) ==
   /\ AtMember /\ Member.kind \in kinds /\ TypeOk(Member) /\ ~Uncallable(Member)
-  /\ LET d == DecorSlot(fn, Member, Top.k) IN
+  /\ LET d == DecorSlot(fn, Member, Top.k, "class") IN
      /\ fn' = d.fn /\ log' = log \o d.log
      /\ cls' = [cls EXCEPT ![Top.c].slots[Top.i] = d.slot]
   /\ Skip
@@ -471,13 +490,16 @@ NoOpCase(c, k) == Optimized \/ ~c.ann \/ c.ntc \/ k = "O0" \/ IsWrapper(c)
 WantFunc(h, f, k) ==
   LET h1 == IF k = "O0" /\ ~Optimized THEN [h EXCEPT ![f].ntc = TRUE] ELSE h
   IN IF NoOpCase(h[f], k) THEN [fn |-> h1, out |-> f]
-     ELSE [fn |-> Append(h1, Cell(h[f].ann, FALSE, f, k, h[f].meta)), out |-> Len(h1) + 1]
+     ELSE [fn |-> Append(h1, Cell(h[f].ann, FALSE, h[f].ctx, f, k, h[f].meta)), out |-> Len(h1) + 1]
 WantParts(h, parts, k) ==
   LET d1 == IF parts[1] = 0 THEN [fn |-> h, out |-> 0] ELSE WantFunc(h, parts[1], k)
       d2 == IF parts[2] = 0 THEN [fn |-> d1.fn, out |-> 0] ELSE WantFunc(d1.fn, parts[2], k)
       d3 == IF parts[3] = 0 THEN [fn |-> d2.fn, out |-> 0] ELSE WantFunc(d2.fn, parts[3], k)
   IN [fn |-> d3.fn, parts |-> <<d1.out, d2.out, d3.out>>]
 
+\* (a member whose hints need the class -- typing.Self -- is decorated "on behalf of the class", with the
+\* class stack at hand: it is wrapped and checked like any other annotated member, under every
+\* configuration, the non-fatal ones included)
 \* route B: decorate by hand each function-like member the class itself defines, recursively
 \* for the classes nested in it (lexical ownership); an already decorated class is unchanged
 RECURSIVE WantClass(_, _, _), WantMembers(_, _, _, _)
@@ -577,7 +599,7 @@ VerdictOf(r) ==
   LET at == Lookup(r.c, r.n)
       m == cls[at.c].slots[at.i]
       cell == fn[m.parts[r.p]]
-  IN [c |-> r.c, n |-> r.n, p |-> r.p, kind |-> m.kind, def |-> at.c,
+  IN [c |-> r.c, n |-> r.n, p |-> r.p, kind |-> m.kind, def |-> at.c, ctx |-> cell.ctx,
       bad |-> IF IsWrapper(cell) /\ r.p # 3
               THEN (IF m.kind = "property" /\ r.p = 1 THEN "R:" ELSE "P:") \o cell.by
               ELSE "ok"]
@@ -586,7 +608,7 @@ Row ==
   [group |-> grp.name, u |-> u, hist |-> hist, optimized |-> Optimized,
    classes |-> [c \in 1..NClasses |-> [qn |-> cls[c].qn, bases |-> cls[c].bases, owner |-> cls[c].owner,
                                        present |-> cls[c].present, meta |-> cls[c].meta]],
-   funcs |-> { [id |-> j, ann |-> fn[j].ann, ntc |-> fn[j].ntc] : j \in { j \in 1..Len(fn) : fn[j].wraps = 0 } },
+   funcs |-> { [id |-> j, ann |-> fn[j].ann, ntc |-> fn[j].ntc, ctx |-> fn[j].ctx] : j \in { j \in 1..Len(fn) : fn[j].wraps = 0 } },
    obs |-> Proj(Snap), ret |-> ret,
    verdicts |-> { VerdictOf(r) : r \in VerdictRows }]
 
